@@ -131,7 +131,14 @@ fn datagrams() -> RunResult {
                     let (errs, sent, txs) = (errs.clone(), sent.clone(), txs.clone());
                     async move {
                         for (k, t) in txs.iter().copied().enumerate() {
-                            let data = |len: usize| sim::payload(seed ^ (k as u64 + 1) << 8, len);
+                            // (a datagram starts with its number: even cut to one byte it is attributable to one sender)
+                            let data = |len: usize| {
+                                let mut d = sim::payload(seed ^ (k as u64 + 1) << 8, len);
+                                if let Some(b) = d.first_mut() {
+                                    *b = k as u8;
+                                }
+                                d
+                            };
                             let (l, src) = match t {
                                 Tx::SendTo(l) | Tx::SendToVectored(l) | Tx::SendMsg(l) => (l, tx_addr),
                                 Tx::Send(l) | Tx::SendVectored(l) => (l, txc_addr),
